@@ -423,14 +423,24 @@ def check(pid, tier, seed):
     if tier == "thorough" and ok and not os.environ.get("VERIF_NO_COQCHK"):
         modname = "GmsmVerif." + m.PROPS[:-2].replace("/", ".")
         tchk = time.time()
+        # snapshot the compiled files under the build lock, then check the snapshot without holding it
+        snap = os.path.join(wd, "coqchk_vo")
+        shutil.rmtree(snap, ignore_errors=True)
         with Lock("coq"):
-            rc, out = sh(["coqchk", "-silent", "-o", "-Q", ".", "GmsmVerif", modname], cwd=COQ, timeout=5400)
+            for rel in coq_deps(m.PROPS):
+                src = os.path.join(COQ, rel[:-2] + ".vo")
+                if os.path.exists(src):
+                    dst = os.path.join(snap, rel[:-2] + ".vo")
+                    os.makedirs(os.path.dirname(dst), exist_ok=True)
+                    shutil.copyfile(src, dst)
+        rc, out = sh(["coqchk", "-silent", "-o", "-Q", snap, "GmsmVerif", modname], cwd=wd, timeout=5400)
+        shutil.rmtree(snap, ignore_errors=True)
         summ = out[out.find("CONTEXT SUMMARY"):] if "CONTEXT SUMMARY" in out else out[-1500:]
         def section(title):
             mm = re.search(r"\* " + re.escape(title) + r":(.*?)(?:\n\* |\Z)", summ, re.S)
             body = mm.group(1).strip() if mm else "?"
             return [] if body == "<none>" else [l.strip() for l in body.splitlines() if l.strip()]
-        coqchk_info = {"cmd": "coqchk -silent -o -Q . GmsmVerif " + modname, "exit": rc, "wall_s": round(time.time() - tchk, 1),
+        coqchk_info = {"cmd": "coqchk -silent -o -Q <snapshot of the .vo files Props depends on> GmsmVerif " + modname, "exit": rc, "wall_s": round(time.time() - tchk, 1),
                        "axioms": section("Axioms"), "type_in_type": section("Constants/Inductives relying on type-in-type"),
                        "unsafe_fixpoints": section("Constants/Inductives relying on unsafe (co)fixpoints"),
                        "assumed_positivity": section("Inductives whose positivity is assumed")}
